@@ -117,15 +117,20 @@ def get_value_source(
     if param in provided_values:
         return (ValueSource.PROVIDED, provided_values[param])
 
-    # 3. Bound value (from graph.bind()) - check both graph and GraphNode
-    if param in graph.inputs.bound:
-        return (ValueSource.BOUND, graph.inputs.bound[param])
+    # 3. Bound value (from graph.bind()) - this graph's own binding wins
+    if param in graph._bound:
+        return (ValueSource.BOUND, graph._bound[param])
 
-    # 3b. For GraphNode: check if inner graph has it bound
+    # 3b. For GraphNode: the value its own inner graph has bound (two nested
+    #     graphs may bind different objects under the same input name)
     if isinstance(node, GraphNode):
         original_param = node._resolve_original_input_name(param)
         if original_param in node._graph.inputs.bound:
             return (ValueSource.BOUND, node._graph.inputs.bound[original_param])
+
+    # 3c. Bound values surfaced from nested graphs (shared with sibling nodes)
+    if param in graph.inputs.bound:
+        return (ValueSource.BOUND, graph.inputs.bound[param])
 
     # 4. Function default (from signature)
     if node.has_signature_default_for(param):
